@@ -279,6 +279,20 @@ func c14Run(c *Ctx) {
 			}
 		}
 	}
+	// truthiness of literals written directly in the context (no variable in between)
+	for _, v := range vals {
+		if strings.ContainsAny(v.expr, ".()[") && !strings.HasPrefix(v.expr, "[") && !strings.HasPrefix(v.expr, `("`) && v.expr != "0.5" && v.expr != "0.001" {
+			continue
+		}
+		e := v.expr
+		if strings.HasPrefix(e, "{") {
+			e = "(" + e + ")"
+		}
+		src := tpre + Lines(IfElse(e, Print(`"then"`), Print(`"else"`)), Print("!"+e), Print("!!"+e), Print(e+` || "r"`), Print(e+` && "r"`), Print(`nil || `+e), For(";", e, "", "{ "+Print(`"body"`)+" "+Break()+" }"))
+		if c.Mine() {
+			c14Judge(c, &Case{Gen: "truthiness-literal-" + v.class, Src: src, X: map[string]string{"form": "truthiness-literal"}})
+		}
+	}
 	// hand-written order cases the forms do not express
 	for _, src := range []string{
 		pre + Lines(Var("arr", "[0, 0, 0]"), Var("k", "0"), "arr[k = 2] = k + 5;", Print("arr"), Print("k")),
